@@ -44,6 +44,7 @@ def run(ctx: RuleContext):
     from .c08 import check_leaf_loop
 
     ctx.reuse("C17.4", check_leaf_loop, ctx)
+    ctx.sub(check_no_tracing_state, ctx)
 
 
 def _parents(root):
@@ -335,3 +336,52 @@ def check_symbolic_namespaces(ctx):
         else:
             ctx.ok("C17.3", f.qualname, f"size expression evaluated over {sorted(ns_names)} only (integer size bindings)")
     ctx.counters["symbolic_eval_sites"] = n
+
+
+# ------------------------------------------------------------------------ C17.5
+_FRAMEWORK_ROOTS = {"jax", "jnp", "lax", "torch", "tf", "tensorflow", "mlx", "mx"}
+
+
+def check_no_tracing_state(ctx):
+    """C17.5: the check path consults nothing about *how* it is being run: no call into a tracing framework (`jax.lax.axis_size`,
+    `jax.core.*`, `isinstance(x, jax.core.Tracer)`), no `sys.modules` lookup to get hold of one.  A verdict that depends on the axis
+    environment / trace level of the enclosing transformation differs between `vmap(f)` and `vmap(f, axis_name=..)`, between jit and
+    eager, for the very same shapes and dtypes."""
+    from ..callgraph import CallGraph
+
+    m = ctx.model
+    cg = CallGraph(m)
+    roots = [m.func("_array_types._MetaAbstractArray.__instancecheck_str__"), m.func("_pytree_type._MetaPyTree.__instancecheck__")]
+    # ... and the per-call wrappers: whether a call is checked at all must not depend on its arguments being tracers
+    from ..roles import roles_for
+
+    w_ = roles_for(m).wrappers()
+    roots += list(w_["wraps"]) + list(w_["impl"])
+    pred = cg.reachable(roots, follow_refs=False, dispatch=False)
+    jt_ = m.func("_decorator.jaxtyped")
+    fs = [m.functions[q] for q in pred if q in m.functions and m.functions[q].module.short in ("_array_types", "_pytree_type", "_storage", "_decorator") and m.functions[q] is not jt_]
+    n = 0
+    bad = False
+    for f in fs:
+        ctx.saw(f)
+        for x in ast.walk(f.node):
+            if isinstance(x, ast.Attribute):
+                root = x
+                while isinstance(root, ast.Attribute):
+                    root = root.value
+                if isinstance(root, ast.Name) and root.id in _FRAMEWORK_ROOTS and f.module.short != "_pytree_type":
+                    # (the PyTree check flattens with jax.tree_util: that is the one framework call it is built on)
+                    n += 1
+                    bad = True
+                    ctx.bad("C17.5", f, x, f"`{short(x, 50)}`: the array check calls into a tracing framework; what it answers depends on the transformation the check runs under "
+                            "(axis environment, trace level), not only on type, shape and dtype", construct=f"framework state consulted: {short(x, 50)}")
+                    break
+            if isinstance(x, ast.Attribute) and norm(x) == "sys.modules":
+                n += 1
+                bad = True
+                ctx.bad("C17.5", f, x, "the check path looks a module up in `sys.modules` at check time: whether a framework happens to be imported (and what it reports about the "
+                        "running transformation) enters the verdict", construct="sys.modules consulted on the check path")
+    ctx.counters["check_path_functions"] = len(fs)
+    ctx.floor("C17.5", "check_path_functions", 4)
+    if not bad:
+        ctx.ok("C17.5", "_array_types", f"none of the {len(fs)} functions on the check path consults a tracing framework or sys.modules")
